@@ -7,7 +7,6 @@ import (
 
 	"github.com/ipld/go-ipld-prime"
 	"github.com/ipld/go-ipld-prime/datamodel"
-	"github.com/ipld/go-ipld-prime/must"
 )
 
 // Match determines if the IPLD node satisfies the policy.
@@ -80,7 +79,7 @@ func matchStatement(cur Statement, node ipld.Node) (_ matchResult, leafMost Stat
 			if res == nil { // optional selector didn't match
 				return matchResultOptionalNoData, nil
 			}
-			return boolToRes(datamodel.DeepEqual(s.value, res))
+			return boolToRes(deepEqual(s.value, res))
 		}
 	case KindGreaterThan:
 		if s, ok := cur.(equality); ok {
@@ -258,6 +257,17 @@ func accumulate(acc matchResult, accLeaf Statement, res matchResult, leaf Statem
 	return acc, accLeaf
 }
 
+// deepEqual is datamodel.DeepEqual, except that a node it can't compare (an unsigned integer
+// beyond int64, on which it panics) is different from any policy value.
+func deepEqual(expected ipld.Node, actual ipld.Node) (equal bool) {
+	defer func() {
+		if recover() != nil {
+			equal = false
+		}
+	}()
+	return datamodel.DeepEqual(expected, actual)
+}
+
 // isOrdered compares two IPLD nodes and returns true if they satisfy the given ordering function.
 // It supports comparison of integers and floats, returning false for:
 //   - Nodes of different or unsupported kinds
@@ -271,8 +281,15 @@ func accumulate(acc matchResult, accLeaf Statement, res matchResult, leaf Statem
 //   - For "<=" it returns true when order is -1 or 0
 func isOrdered(expected ipld.Node, actual ipld.Node, satisfies func(order int) bool) bool {
 	if expected.Kind() == ipld.Kind_Int && actual.Kind() == ipld.Kind_Int {
-		a := must.Int(actual)
-		b := must.Int(expected)
+		a, err := actual.AsInt()
+		if err != nil {
+			// an unsigned integer beyond int64: outside the safe bounds, never ordered
+			return false
+		}
+		b, err := expected.AsInt()
+		if err != nil {
+			return false
+		}
 
 		return satisfies(cmp.Compare(a, b))
 	}
